@@ -96,4 +96,7 @@ CHECKS["C17"] = ("writer/reader convention agreement (phases, vertex types, Hada
 NOT_YET = "check not built yet in this round (static rules designed in DESIGN.md §4; will be claimed when the rule module lands)"
 NOT_APPLICABLE = {("C%02d" % i): NOT_YET for i in range(1, 21) if ("C%02d" % i) not in CHECKS}
 NOTES = ("All checks are static analyses of /repo/discopy's source (python -m sa.check <id>); exit 0 / 1 (VIOLATION) / 2 (ANALYSIS-ERROR). "
-         "Known findings: /verif/known_findings.json. Checker validation corpus: python -m sa.selftest.")
+         "Known findings: /verif/known_findings.json. Checker validation corpus: python -m sa.selftest. "
+         "The thorough tier decides the same rules with the larger bounds where a rule is bounded (rewire widths 7, cartesian widths 5) and additionally runs the property's corpus of variants "
+         "(semantic single edits that must be reported, behaviour-preserving rewrites that must stay silent) on scratch copies of /repo, recording the matrix under coverage.checker_validation; "
+         "tools/benign.py re-runs all checks on eight behaviour-preserving rewritings of the whole package.")
